@@ -427,6 +427,38 @@ func init() {
 	}
 }
 
+// External services used by the Minter connector: arbitrary results (any response, any error).
+func init() {
+	arbitrary := func(name, doc string) {
+		reg(name, doc, func(x *Exec, st *State, ci *callInfo, a []Val) Val {
+			res := ci.sig.Results()
+			tv := &TupleV{}
+			for i := 0; i < res.Len(); i++ {
+				t := res.At(i).Type()
+				if isErrorType(t) {
+					tv.Vs = append(tv.Vs, &ErrV{IsNil: x.e.fresh("exterr_isnil", SBool)})
+					continue
+				}
+				v := x.havocValLike(st, x.tryZero(st, t), "ext", t)
+				if p, ok := v.(*PtrV); ok {
+					p.Nil = TFalse
+				}
+				tv.Vs = append(tv.Vs, v)
+			}
+			if len(tv.Vs) == 1 {
+				return tv.Vs[0]
+			}
+			if len(tv.Vs) == 0 {
+				return nil
+			}
+			return tv
+		})
+	}
+	arbitrary("(*github.com/MinterTeam/minter-go-sdk/v2/api/http_client.Client).Blocks", "ASSUMED external service: any list of blocks or any error")
+	arbitrary("(*google.golang.org/protobuf/types/known/anypb.Any).UnmarshalNew", "ASSUMED: any message or any error")
+	reg("time.Sleep", "no effect on modelled state", func(x *Exec, st *State, ci *callInfo, a []Val) Val { return nil })
+}
+
 func (x *Exec) iterBounds(st *State, a []Val) {
 	for _, v := range a {
 		switch b := v.(type) {
